@@ -58,6 +58,16 @@ fn tricky() -> BoxedStrategy<String> {
         (name(), name()).prop_map(|(a, b)| format!("{{{{ {a}|default({b}) }}}}{{{{ {a} is eq({b}) }}}}{{{{ dict(k={b}) }}}}")),
         (name(), name()).prop_map(|(a, b)| format!("{{% macro o() %}}{{% macro inner({a}) %}}{{{{ {a} }}}}{{{{ {b} }}}}{{% endmacro %}}{{{{ inner(1) }}}}{{% endmacro %}}{{{{ o() }}}}")),
         name().prop_map(|a| format!("{{{{ self.blk() if false }}}}{{{{ [{a}] }}}}")),
+        // two macro / call-block declarations on one level that read a name the template
+        // assigned, the first one on a path that may be skipped
+        (name(), name()).prop_map(|(a, b)| format!("{{% set {a} = 1 %}}{{% if {b} %}}{{% macro ma() %}}{{{{ {a} }}}}{{% endmacro %}}{{% endif %}}{{% macro mb() %}}[{{{{ {a} }}}}]{{% endmacro %}}{{{{ mb() }}}}")),
+        (name(), name()).prop_map(|(a, b)| format!("{{% set {a} = 1 %}}{{% for q in [1] %}}{{% if {b} %}}{{% continue %}}{{% endif %}}{{% macro ma() %}}{{{{ {a} }}}}{{% endmacro %}}{{% endfor %}}{{% call(qq) mm2(1) %}}{{{{ {a} }}}}{{% endcall %}}")),
+        (name(), name()).prop_map(|(a, b)| format!("{{% set {a} = 1 %}}{{% for q in {b} %}}x{{% else %}}{{% macro ma() %}}{{{{ {a} }}}}{{% endmacro %}}{{% endfor %}}{{% macro mb() %}}{{{{ {a} }}}}{{% endmacro %}}{{{{ mb() }}}}")),
+        // a block that reads a template-level assignment, called through self from a macro / call block
+        name().prop_map(|a| format!("{{% set {a} = 1 %}}{{% block blkm %}}{{{{ {a} }}}}{{% endblock %}}{{% macro mself() %}}{{{{ self.blkm() }}}}{{% endmacro %}}{{{{ mself() }}}}")),
+        name().prop_map(|a| format!("{{% set {a} = 1 %}}{{% block blkc %}}{{{{ {a} }}}}{{% endblock %}}{{% call(qq) mm2(1) %}}{{{{ self.blkc() }}}}{{% endcall %}}")),
+        // a recursive loop continued from inside a call block
+        name().prop_map(|a| format!("{{% set {a} = 1 %}}{{% for qrec in [[1]] recursive %}}{{{{ {a} }}}}{{% call(qq) mm2(1) %}}{{{{ loop(qrec)|string if qrec is sequence }}}}{{% endcall %}}{{% endfor %}}")),
     ];
     prop::collection::vec(stmt, 1..5)
         .prop_map(|v| format!("{{% macro mm2(q) %}}{{{{ caller(1) }}}}{{% endmacro %}}{}", v.concat()))
@@ -139,6 +149,26 @@ impl Part for Soundness {
             let omitted: Vec<&String> = read.difference(set).collect();
             if let Some(name) = omitted.first() {
                 let class = match name.as_str() {
+                    // a block that reads a template-level assignment and is rendered through
+                    // self.<block>() from inside a macro or call block runs on the macro's
+                    // context, which does not hold that assignment: a listed finding
+                    n if ["blkm", "blkc"].iter().any(|b| {
+                        c.source.contains(&format!("self.{b}()")) && c.source.contains(&format!("{{% block {b} %}}{{{{ {n} }}}}"))
+                    }) =>
+                    {
+                        "block_via_self_in_macro"
+                    }
+                    // loop(...) called from inside a call block continues the recursive loop on
+                    // the caller macro's context, which holds none of the template's names: a
+                    // listed finding (every name the loop body reads is then looked up)
+                    n if c.source.find("{% for qrec in").map_or(false, |at| {
+                        let body = &c.source[at..];
+                        let body = &body[..body.find("{% endfor %}").unwrap_or(body.len())];
+                        body.contains("{% endcall %}") && body.contains("loop(qrec)") && body.contains(n)
+                    }) =>
+                    {
+                        "recursive_loop_via_call_block"
+                    }
                     "loop" | "self" | "super" | "caller" | "varargs" | "kwargs" => name.as_str(),
                     // declaring a macro whose body mentions its own name encloses (= looks up)
                     // that name before the macro is stored: a listed finding
